@@ -893,6 +893,7 @@ func runC36Overflow(c *an.Ctx, fns []*ssa.Function) {
 
 	// ---- scan directions
 	candDir, newDir, nIdx, dirOK := 0, 0, 0, true
+	conflict := ""
 	for _, fn := range hs {
 		an.Instrs(fn, func(in ssa.Instruction) {
 			ia, ok := in.(*ssa.IndexAddr)
@@ -906,12 +907,18 @@ func runC36Overflow(c *an.Ctx, fns []*ssa.Function) {
 			switch {
 			case isCand(ia.X):
 				nIdx++
+				if d != 0 && candDir != 0 && candDir != d {
+					conflict = "the peer's existing wants"
+				}
 				if d == 0 || (candDir != 0 && candDir != d) {
 					dirOK = false
 				}
 				candDir = d
 			case strings.Contains(ia.X.Type().String(), "bitswap/message.Entry") && isNew(ia.X):
 				nIdx++
+				if d != 0 && newDir != 0 && newDir != d {
+					conflict = "the overflowing newcomers"
+				}
 				if d == 0 || (newDir != 0 && newDir != d) {
 					dirOK = false
 				}
@@ -920,7 +927,10 @@ func runC36Overflow(c *an.Ctx, fns []*ssa.Function) {
 		})
 	}
 	c.Min("O1 indexed accesses to candidates/newcomers in the overflow handler", nIdx, 4)
-	if !dirOK {
+	if conflict != "" {
+		c.Bad("O1", "R-SIB", name, "one-scan-direction-per-list", ho.Pos(),
+			"the overflow handler takes "+conflict+" from the front at one site and from the back at another: with a single sort order one of the two sites picks the wrong end (least important newcomer admitted, or most important existing want evicted)")
+	} else if !dirOK {
 		c.Problem("undecided: C36 O1 cannot classify the scan direction of an index into the candidate/overflow slices in %s", name)
 	} else if candOrient != 0 && newOrient != 0 {
 		c.Check(candOrient*candDir > 0, "O1", "R-SIB", name, "candidates-least-important-first", ho.Pos(),
